@@ -2,6 +2,8 @@
 # Licensed under the MIT License.
 from __future__ import annotations
 
+import textwrap
+
 from typing import Any, Optional, Sequence
 
 import numpy as np
@@ -694,7 +696,6 @@ class _Exporter:
             result.append(line)
 
         opset_name = self._make_opset_name(funproto.domain, 1)
-        add_line(f"@script({opset_name})")
         fun_name = self._make_callee_name(funproto.domain, 1, funproto.name)
         fun_sig = self._translate_function_signature(funproto)
         add_line(f"def {fun_name}{fun_sig}")
@@ -706,7 +707,25 @@ class _Exporter:
         return_values = ", ".join(self._translate_onnx_var(x) for x in funproto.output)
         add_line(f"    return {return_values}")
         self._name_remappings.pop()
+        default_opset = self._default_opset_if_unnamed(result, opsets)
+        if default_opset is None:
+            result.insert(0, f"@script({opset_name})")
+        else:
+            result.insert(0, f"@script({opset_name}, default_opset={default_opset})")
         return "\n".join(result)
+
+    def _default_opset_if_unnamed(self, lines: list[str], opsets: dict[str, int]) -> str | None:
+        """Returns the name of the standard opset if no emitted line names it.
+
+        When every node is rendered as a Python operator (use_operators=True), the script
+        contains no "opsetN.Op(...)" call from which the converter could tell the opset.
+        """
+        if "" not in opsets:
+            return None
+        name = self._make_opset_name("", opsets[""])
+        if any(f"{name}." in line for line in lines):
+            return None
+        return name
 
     def _translate_graph(self, model: onnx.ModelProto, function_name: Optional[str]) -> str:
         graph = model.graph
@@ -727,7 +746,7 @@ class _Exporter:
         else:
             indent_level = 1
             indent = ""
-        add(f"{indent}@script()")
+        decorator_indent = indent
         add(f"{indent}def {function_name}{_translate_signature(graph.input, graph.output)}")
         indent = indent + _SINGLE_INDENT
         doc = graph.doc_string
@@ -740,10 +759,19 @@ class _Exporter:
         return_values = ", ".join(self._translate_onnx_var(x) for x in graph.output)
         add(f"{indent}return {return_values}")
         self._name_remappings.pop()
+        default_opset = self._default_opset_if_unnamed(result, opsets)
+        if default_opset is None:
+            result.insert(0, f"{decorator_indent}@script()")
+        else:
+            result.insert(0, f"{decorator_indent}@script(default_opset={default_opset})")
         script = "\n".join(result)
         if self.skipped_initializers:
             value_infos = _translate_value_infos(graph.value_info)
             return self._substitute_initializers(script, function_name, value_infos)
+        if self.skip_initializers:
+            # No initializer was large enough to be skipped: there is no make_model wrapper
+            # for the script to be nested in.
+            return textwrap.dedent(script)
         return script
 
     def _substitute_initializers(
